@@ -67,6 +67,6 @@ def run(ctx):
 def replay(ctx, cx, h=None):
     """native witness: N threads hammer the real FIXWriter::write/write_batch (libfix8, pm_thread) whose Session::send_process is interposed by the same
     non-atomic witness; a lost update / overlap observed natively reproduces the violation (schedule dependent: bounded retries, never a false alarm)"""
-    exe = ctx.native('c25replay', ['replay/c25_replay.cpp'], flags=('-O1', '-g', '-fno-access-control'), libs=['-L' + REPO + '/runtime/.libs', '-lfix8', '-L' + REPO + '/utests/.libs', '-lutest', '-Wl,-rpath,' + REPO + '/runtime/.libs', '-Wl,-rpath,' + REPO + '/utests/.libs'])
-    r = sh([exe] + (['pipe'] if h is not None and 'pipe' in h.name else []), cwd=ctx.work)
+    exe = ctx.native('c25replay', ['replay/c25_replay.cpp', REPO + '/runtime/connection.cpp'], flags=('-O1', '-g', '-fno-access-control'), libs=['-L' + REPO + '/runtime/.libs', '-lfix8', '-L' + REPO + '/utests/.libs', '-lutest', '-Wl,-rpath,' + REPO + '/runtime/.libs', '-Wl,-rpath,' + REPO + '/utests/.libs'])
+    r = sh([exe] + (['pipe'] if (h is not None and 'pipe' in h.name) or int((cx.get('cx', cx) or {}).get('cx_null_pushed', 0) or 0) else []), cwd=ctx.work)
     return r.returncode != 0, r.stdout.strip()[-400:].replace('\n', ' | ')
